@@ -64,6 +64,13 @@ Definition Pb_gas (cls : outcome) (gas left : Z) (cost : option Z) : bool :=
   | None => true
   end.
 
+(** A failed call is invisible to the rest of its transaction.  [drop_eq]: the transaction — its later calls
+    included — does to the state exactly what it does when its failed calls are left out. *)
+Definition P_tx (drop_eq : Prop) : Prop := drop_eq.
+Definition Pb_tx (drop_eq : bool) : bool := drop_eq.
+Lemma Pb_tx_sound : forall b, Pb_tx b = true -> P_tx (b = true).
+Proof. intros b H. exact H. Qed.
+
 Lemma outcome_eqb_true : forall a b, outcome_eqb a b = true <-> a = b.
 Proof. destruct a, b; simpl; split; intro H; try reflexivity; try discriminate. Qed.
 
